@@ -718,7 +718,9 @@ pub fn exec_op<T: Tx>(t: &mut T, k: usize, toks: &[&str], out: &mut String) {
         }
         "vrect" | "erect" | "vcirc" | "ecirc" => {
             mutating = false;
-            let _ = writeln!(out, " {}", a.join(" "));
+            // the parameters are echoed as the scalar type holds them (an f32 triangulation receives rounded values)
+            let echoed: Vec<String> = a.iter().map(|tok| bits(T::S::of_f64(fb(tok))).to_string()).collect();
+            let _ = writeln!(out, " {}", echoed.join(" "));
             let r: Vec<usize> = match name {
                 "vrect" => t.get_vertices_in_rectangle(pt(a[0], a[1]), pt(a[2], a[3])).map(|v| v.fix().index()).collect(),
                 "erect" => t.get_edges_in_rectangle(pt(a[0], a[1]), pt(a[2], a[3])).map(|e| e.fix().index()).collect(),
